@@ -192,6 +192,10 @@ func (iss *ACMEIssuer) newACMEClient(useTestCA bool) (*acmez.Client, error) {
 
 	// fill in a little more beyond a basic client
 	if useTestCA && iss.TestCA != "" {
+		// the test CA is contacted like the primary one, so its endpoint must be as secure
+		if _, err := secureCAURL(iss.TestCA); err != nil {
+			return nil, err
+		}
 		client.Client.Directory = iss.TestCA
 	}
 	certObtainTimeout := iss.CertObtainTimeout
@@ -266,16 +270,9 @@ func (iss *ACMEIssuer) newBasicACMEClient() (*acmez.Client, error) {
 	if caURL == "" {
 		caURL = DefaultACME.CA
 	}
-	// ensure endpoint is secure (assume HTTPS if scheme is missing)
-	if !strings.Contains(caURL, "://") {
-		caURL = "https://" + caURL
-	}
-	u, err := url.Parse(caURL)
+	caURL, err := secureCAURL(caURL)
 	if err != nil {
 		return nil, err
-	}
-	if u.Scheme != "https" && !SubjectIsInternal(u.Host) {
-		return nil, fmt.Errorf("%s: insecure CA URL (HTTPS required for non-internal CA)", caURL)
 	}
 	return &acmez.Client{
 		Client: &acme.Client{
@@ -285,6 +282,24 @@ func (iss *ACMEIssuer) newBasicACMEClient() (*acmez.Client, error) {
 			Logger:     slog.New(zapslog.NewHandler(iss.Logger.Named("acme_client").Core())),
 		},
 	}, nil
+}
+
+// secureCAURL ensures that a CA endpoint is secure: it returns caURL, with HTTPS
+// assumed if the scheme is missing, or an error if the endpoint is neither HTTPS
+// nor an internal address.
+func secureCAURL(caURL string) (string, error) {
+	// ensure endpoint is secure (assume HTTPS if scheme is missing)
+	if !strings.Contains(caURL, "://") {
+		caURL = "https://" + caURL
+	}
+	u, err := url.Parse(caURL)
+	if err != nil {
+		return "", err
+	}
+	if u.Scheme != "https" && !SubjectIsInternal(u.Host) {
+		return "", fmt.Errorf("%s: insecure CA URL (HTTPS required for non-internal CA)", caURL)
+	}
+	return caURL, nil
 }
 
 // GetRenewalInfo gets the ACME Renewal Information (ARI) for the certificate.
